@@ -145,3 +145,55 @@ pub fn client_tables_return_to_empty() -> Value {
 		}
 	})
 }
+
+/// C03: k concurrent calls answered in every permutation, plus a duplicate and an unknown id.
+pub fn client_call_routing() -> Value {
+	rt().block_on(async {
+		let perms: [[usize; 3]; 6] = [[0, 1, 2], [0, 2, 1], [1, 0, 2], [1, 2, 0], [2, 0, 1], [2, 1, 0]];
+		for perm in perms {
+			let (c, mut peer) = mock::client(ClientBuilder::default());
+			let c = std::sync::Arc::new(c);
+			let mut futs = Vec::new();
+			for k in 0..3u64 {
+				let c2 = c.clone();
+				futs.push(tokio::spawn(async move { c2.request::<String, _>("echo", rpc_params![k]).await }));
+			}
+			let mut reqs = Vec::new();
+			for _ in 0..3 {
+				let m = peer.next().await.unwrap();
+				let v: Value = serde_json::from_str(&m).unwrap();
+				reqs.push((v["id"].clone(), v["params"][0].as_u64().unwrap()));
+			}
+			// answer in the permuted order; result names the request's own param
+			for &p in &perm {
+				let (id, k) = &reqs[p];
+				peer.send(&json!({"jsonrpc":"2.0","id":id,"result":format!("answer-for-{k}")}).to_string());
+			}
+			for (k, f) in futs.into_iter().enumerate() {
+				let r = tokio::time::timeout(std::time::Duration::from_secs(3), f).await;
+				let got = match r { Ok(Ok(Ok(s))) => s, other => format!("{:?}", other.map(|x| x.map(|y| y.map_err(|e| e.to_string())))) };
+				if got != format!("answer-for-{k}") {
+					return json!({"probe":"client_call_routing","disagrees":true,
+						"input": format!("3 concurrent calls, responses sent in order {:?}", perm),
+						"observed": format!("call {k} completed with {got}"), "expected": format!("answer-for-{k}")});
+				}
+			}
+		}
+		// a response whose id matches nothing pending completes no call (the client abandons the connection)
+		{
+			let (c, mut peer) = mock::client(ClientBuilder::default());
+			let c = std::sync::Arc::new(c);
+			let c2 = c.clone();
+			let f = tokio::spawn(async move { c2.request::<String, _>("echo", rpc_params![1]).await });
+			let m = peer.next().await.unwrap();
+			let _id = id_of(&m);
+			peer.send(&json!({"jsonrpc":"2.0","id":424242,"result":"stray"}).to_string());
+			let r = tokio::time::timeout(std::time::Duration::from_secs(3), f).await;
+			if let Ok(Ok(Ok(s))) = &r {
+				return json!({"probe":"client_call_routing","disagrees":true,"input":"one pending call; response with unknown id 424242",
+					"observed": format!("the pending call completed with {s}"), "expected":"no call completes with that response"});
+			}
+		}
+		json!({"probe":"client_call_routing","disagrees":false,"histories_tried":7})
+	})
+}
